@@ -23,13 +23,16 @@ def _hash_inputs(src):
     return h.hexdigest()[:24]
 
 
-def dump_ast(relsrc, filt='ephemeralnet'):
+AST_ERRORS = {}   # relsrc -> clang diagnostics of a translation unit that was accepted with errors ('@option ast_errors tolerate')
+
+
+def dump_ast(relsrc, filt='ephemeralnet', tolerate=False):
     """Return list of top-level JSON docs for the TU (current working tree)."""
     src = os.path.join(REPO, relsrc)
     if not os.path.exists(src):
         raise LoweringError(f'source file missing: {src}')
     os.makedirs(CACHE, exist_ok=True)
-    key = _hash_inputs(src) + '-' + re.sub(r'\W', '_', relsrc) + '-' + filt
+    key = _hash_inputs(src) + '-' + re.sub(r'\W', '_', relsrc) + '-' + filt + ('-tol' if tolerate else '')
     path = os.path.join(CACHE, key + '.json')
     if not os.path.exists(path):
         cmd = ['clang++', '-std=c++20', '-I' + os.path.join(REPO, 'include'), '-D_FILE_OFFSET_BITS=64',
@@ -40,8 +43,15 @@ def dump_ast(relsrc, filt='ephemeralnet'):
         with open(path + '.tmp', 'wb') as out:
             r = subprocess.run(cmd, stdout=out, stderr=subprocess.PIPE)
         if r.returncode != 0:
-            raise LoweringError('clang failed on %s:\n%s' % (relsrc, r.stderr.decode()[-2000:]))
+            if not tolerate or os.path.getsize(path + '.tmp') == 0:
+                raise LoweringError('clang failed on %s:\n%s' % (relsrc, r.stderr.decode()[-2000:]))
+            # clang 14 rejects a construct g++ (the project's compiler) accepts: the AST is still complete outside the
+            # erroneous declarations; every lowered function is checked to be free of error-recovery nodes
+            with open(path + '.errors', 'w') as ef:
+                ef.write('\n'.join(l for l in r.stderr.decode().splitlines() if ' error: ' in l))
         os.rename(path + '.tmp', path)
+    if os.path.exists(path + '.errors'):
+        AST_ERRORS[relsrc] = open(path + '.errors').read().splitlines()
     if filt == '':
         return _reduce_full_dump(path)
     s = open(path).read()
